@@ -263,7 +263,14 @@ func c11History(r *core.Run, ci int64) {
 		opts.MaxConnIdleTime = time.Duration(5+rng.Intn(40)) * time.Millisecond
 		opts.HealthCheckPeriod = time.Millisecond
 	}
-	desc := map[string]any{"class": class, "max_conns": maxConns, "workers": workers, "ops_per_worker": opsPer, "case": ci}
+	if (class == "idle-reaping" || class == "idle-reaping-slow") && ci%3 == 1 {
+		// a warm floor: idle connections are reaped all the same, the pool re-dials up to MinConns
+		opts.MinConns = int32(1 + int(ci/3)%2)
+		if int(opts.MinConns) > maxConns {
+			opts.MinConns = int32(maxConns)
+		}
+	}
+	desc := map[string]any{"class": class, "max_conns": maxConns, "min_conns": opts.MinConns, "workers": workers, "ops_per_worker": opsPer, "case": ci}
 	r.CaseLog(fmt.Sprintf("%d %v", ci, desc))
 	r.Eval()
 	fail := func(cls, msg string) {
@@ -497,8 +504,8 @@ func c11History(r *core.Run, ci int64) {
 			open := 0
 			for wait := 0; wait < 3000; wait++ {
 				open = 0
-				for i, c := range conns {
-					if !c.Closed() && i != heldConn {
+				for _, c := range conns {
+					if !c.Closed() && c.ID != heldConn {
 						open++
 					}
 				}
@@ -517,7 +524,20 @@ func c11History(r *core.Run, ci int64) {
 		heldHandle.Release()
 	}
 	pool.Close()
-	// (g) everything closed after Close
+	// (g) everything closed after Close (with MinConns a background dial may complete while the
+	// pool closes; its connection is destroyed asynchronously and gets the same grace as above)
+	for wait := 0; opts.MinConns > 0 && wait < 3000; wait++ {
+		open := 0
+		for _, c := range dialer.Conns() {
+			if !c.Closed() {
+				open++
+			}
+		}
+		if open == 0 {
+			break
+		}
+		time.Sleep(time.Millisecond)
+	}
 	for i, c := range dialer.Conns() {
 		if !c.Closed() {
 			fail("open-after-close", fmt.Sprintf("connection %d still open after Pool.Close with all handles released", i))
